@@ -37,6 +37,19 @@ REASONED = {
 
 
 def run(repo, res):
+    # ---- R1 get_expr_end: abstractly interpreted on symbolic expression trees --------------------------
+    from ..exprend import expr_end_semantics
+    sem = expr_end_semantics(repo)
+    for cls, verdict, detail in sem:
+        if verdict == 'unknown':
+            raise AnalysisError('get_expr_end is outside the interpretable subset: %s' % detail)
+        res.check('C13-R1', 'get_expr_end on %s' % cls, verdict == 'ok', 'supp/util.py', 0,
+                  'get_expr_end must return (lineno, col_offset + 1) of the last visited node, both taken from that one node '
+                  'and without comparing positions of different nodes (a comparison of raw line/column numbers changes with '
+                  'the layout: hanging indents, joined statements): %s' % detail,
+                  sample='get_expr_end(%s) = start of the last visited node + 1 column' % cls)
+    if any(v != 'ok' for _, v, _ in sem):
+        return      # the visitor summaries below rely on this helper
     # ---- R1 anchors are token starts ---------------------------------------------------------
     brecs = R.binder_records(repo)
     n = 0
@@ -128,6 +141,8 @@ def run(repo, res):
                 res.check('C13-R2', 'use of .location in %s: %s' % (qualname(nd), unparse(p)[:50]), bad is None, rel,
                           nd.lineno, 'ordering positions may only be compared as a whole (%s)' % bad, nontrivial=False)
     res.count('location_uses', nuse, floor=6)
+    from .. import resolve_model as M
+    M.check_same_line(repo, res, 'C13-R2')
     na = repo.method('supp/scope.py', 'Flow', 'names_at')
     res.check('C13-R2', 'names_at cuts by bisect', 'bisect(self._names, Location(loc))' in unparse(na), 'supp/scope.py',
               na.lineno, 'names_at must cut the ordered binding list by comparison (bisect) at the query position')
